@@ -142,7 +142,7 @@ func (ld *Loaded) protectScan(fd *FieldDecl) *FuncResult {
 			}
 		}
 		for _, a := range accs {
-			if !allowed[fnKey(rootFn(a.fn))] {
+			if !ld.ownedContext(rootFn(a.fn), allowed, 0) {
 				note(a, "access outside the owning functions")
 			}
 		}
@@ -720,4 +720,42 @@ func typesPkgOf(fn *ssa.Function) *types.Package {
 		}
 	}
 	return nil
+}
+
+// ownedContext: fn is one of the owning functions, or an unexported helper that is only ever
+// called (statically, never passed around as a value) from functions that are themselves owned
+// contexts - a helper extracted from an owner runs under the owner's token.
+func (ld *Loaded) ownedContext(fn *ssa.Function, allowed map[string]bool, depth int) bool {
+	if allowed[fnKey(fn)] {
+		return true
+	}
+	if depth > 3 || fn.Object() == nil || fn.Object().Exported() {
+		return false
+	}
+	refs := 0
+	for _, fs := range ld.fnByKey {
+		for _, g := range fs {
+			for _, b := range g.Blocks {
+				for _, in := range b.Instrs {
+					for _, op := range in.Operands(nil) {
+						if *op != ssa.Value(fn) {
+							continue
+						}
+						refs++
+						ci, isCall := in.(ssa.CallInstruction)
+						if !isCall || ci.Common().Value != ssa.Value(fn) {
+							return false // used as a value
+						}
+						if _, isGo := in.(*ssa.Go); isGo {
+							return false
+						}
+						if !ld.ownedContext(rootFn(g), allowed, depth+1) {
+							return false
+						}
+					}
+				}
+			}
+		}
+	}
+	return refs > 0
 }
